@@ -91,7 +91,7 @@ func c12Key(t *rm.Type, kb []byte, mode string) (v *ev.Violation) {
 		}
 		for _, s := range segs {
 			if s.Path == "."+f.Key {
-				img := kb
+				var img []byte
 				if tab.KeyKind != "text" {
 					img = putPrefix(kv.Bits, s.Len, t.Little())
 				} else {
@@ -130,7 +130,7 @@ func c12Key(t *rm.Type, kb []byte, mode string) (v *ev.Violation) {
 		}
 		// and it round-trips
 		out := &bytes.Buffer{}
-		if err := bind.Encode(msg, out); err != nil || !bytes.Equal(stripComputed(t, out.Bytes()), stripComputed(t, ref)) {
+		if err := bind.Encode(msg, out); err != nil || !bytes.Equal(out.Bytes(), ref) {
 			return c12Vio("no-roundtrip", t, kb, mode, fmt.Sprintf("re-encode err=%v", err))
 		}
 	case "fill":
@@ -176,9 +176,6 @@ func c12Key(t *rm.Type, kb []byte, mode string) (v *ev.Violation) {
 	}
 	return nil
 }
-
-// stripComputed zeroes nothing: frames' computed fields are identical on both sides here because both are derived from the same bytes.
-func stripComputed(t *rm.Type, b []byte) []byte { return b }
 
 // keyImage renders a registered table key as the bytes c12Key expects.
 func keyImage(t *rm.Type, k string) []byte {
